@@ -32,7 +32,7 @@ from . import c07_sites
 
 PROPERTY = "C07"
 LEVEL = "proof"
-FACTS = ["rng_sites", "env_sites", "cbo_opt_kwargs", "sample_max_size_default"]
+FACTS = ["rng_sites", "env_sites", "cbo_opt_kwargs", "sample_max_size_default", "seed_test_accepts_numpy_int"]
 TRUSTED = [
     "partial: hidden nondeterminism inside scikit-learn / scipy / ConfigSpace / pandas (thread summation order, set iteration inside libraries) is not "
     "modelled; it is only sampled by the process pairs",
@@ -115,7 +115,7 @@ def analysis(repo=None):
         r["consts"] = consts
         if r["ok"]:
             ex = r["extra"]
-            r["world"] = [bool("sample_max_size" in ex["cbo_opt_kwargs"] or ex["sample_max_size_default"] > 0)]
+            r["world"] = [bool("sample_max_size" in ex["cbo_opt_kwargs"] or ex["sample_max_size_default"] > 0), bool(ex["seed_test_accepts_numpy_int"])]
     except c07_sites.Closed as e:
         r["ok"], r["reason"] = False, str(e)
     _analysis[repo] = r
@@ -130,7 +130,8 @@ def facts(repo):
             "Definition rng_sites : list ((string * string * string * string) * (Z * Z * Z)) := [].\n"
             "Definition env_sites : list ((string * string * string * string) * (Z * Z * Z)) := [].\n"
             "Definition rng_sites_num : list (Z * Z * Z) := [].\nDefinition env_sites_num : list (Z * Z * Z * Z) := [].\n"
-            "Definition cbo_opt_kwargs : list string := [].\nDefinition sample_max_size_default : Z := 1.\nDefinition world_num : bool := true.\n")
+            "Definition cbo_opt_kwargs : list string := [].\nDefinition sample_max_size_default : Z := 1.\nDefinition world_num : bool := true.\n"
+            "Definition seed_test_accepts_numpy_int : bool := false.\n")
         return text, {"ok": False, "reason": r["reason"]}
     rows = ["((%s, %s, %s, %s), (%d, %d, %d))" % (cs(s["file"]), cs(s["func"]), cs(s["callee"]), cs(s["guard"]), c07_sites.CLASSES.index(s["cls"]), s["line"], s["end"]) for s in r["rng_sites"]]
     erows = ["((%s, %s, %s, %s), (%d, %d, %d))" % (cs(s["file"]), cs(s["func"]), cs(s["callee"]), cs(s["guard"]), c07_sites.ENV_KINDS.index(s["kind"]), c07_sites.FLOWS.index(s["flow"]), s["line"]) for s in r["env_sites"]]
@@ -148,6 +149,8 @@ def facts(repo):
         + "Definition cbo_opt_kwargs : list string := " + cl([cs(k) for k in ex["cbo_opt_kwargs"]]) + ".\n"
         + "Definition sample_max_size_default : Z := %s.\n" % (("(%d)" % ex["sample_max_size_default"]))
         + "Definition world_num : bool := %s.\n" % ("true" if r["world"][0] else "false")
+        + "(* does the test that guards RandomState(random_state) in Search.__init__ accept numpy integers? *)\n"
+        + "Definition seed_test_accepts_numpy_int : bool := %s.\n" % ("true" if r["world"][1] else "false")
     )
     info = dict(ok=True, n_rng_sites=len(r["rng_sites"]), n_env_sites=len(r["env_sites"]), rng_attrs=r["rng_attrs"], extra=ex, set_valued_methods=r.get("set_methods"),
                 rng_sites=["%s:%d %s %s [%s] %s" % (s["file"], s["line"], s["func"], s["callee"], s["cls"], s["num"]) for s in r["rng_sites"]],
@@ -163,7 +166,7 @@ SURROGATES = ["DUMMY", "ET", "RF", "GP"]
 ACQS = ["UCB", "EI", "PI", "MES", "gp_hedge"]
 STRATEGIES = ["cl_min", "cl_mean", "cl_max", "topk", "boltzmann", "qUCB", "qUCBd"]
 INITS = ["random", "sobol", "lhs", "halton", "hammersly", "grid"]
-SPACES = ["flat_real", "flat_mixed", "flat_many", "cond", "forbid", "discrete"]
+SPACES = ["flat_real", "flat_mixed", "flat_many", "cond", "forbid", "discrete", "tiny"]
 
 
 def cfg_of(case):
@@ -174,12 +177,14 @@ def cfg_of(case):
     base = acq[:-1] if d else acq
     return [SEARCHES.index(case["search"]), SURROGATES.index(kw.get("surrogate_model", "ET")) if kw.get("surrogate_model", "ET") in SURROGATES else 4,
             ACQS.index(base) if base in ACQS else 4, bool(d), STRATEGIES.index(kw.get("multi_point_strategy", "cl_max")),
-            INITS.index(kw.get("initial_point_generator", "random")), case["space"] in ("cond", "forbid"), int(case.get("nobj", 1)) > 1, False, True]
+            INITS.index(kw.get("initial_point_generator", "random")), case["space"] in ("cond", "forbid"), int(case.get("nobj", 1)) > 1,
+            case.get("warm_how") in ("fit_generative_model", "fit_search_space"),
+            {"int": 0, "RandomState": 2}.get(case.get("seed_kind", "int"), 1)]
 
 
 def model_args(case):
     a = analysis()
-    return [a.get("world", [True]), cfg_of(case), [s["num"] for s in a["rng_sites"]]]
+    return [a.get("world", [True, False]), cfg_of(case), [s["num"] for s in a["rng_sites"]]]
 
 
 def describe(case):
@@ -193,6 +198,16 @@ def describe(case):
         d.append("with_failures")
     if case.get("fail_region"):
         d += ["fails_around_optimum", "filter_failures=" + kw.get("filter_failures", "min")]
+    if case.get("seed_kind", "int") != "int":
+        d.append("seed_kind=" + case["seed_kind"])
+    if case.get("calls"):
+        d.append("search_calls=%d" % len(case["calls"]))
+    if case.get("warm"):
+        d.append("continued_with=" + case.get("warm_how", "fit_surrogate"))
+    if case.get("const_obj"):
+        d.append("constant_objective")
+    if case.get("seed") in (0, 2**32 - 1):
+        d.append("edge_seed")
     if case.get("interfere"):
         d.append("other_search_on_same_problem=" + case["interfere"])
     if case.get("threads"):
@@ -206,13 +221,15 @@ def sig_of(case, clause, **extra):
     if case["search"] == "CBO" and clause in CLAUSE.values():
         acq = kw.get("acq_func", "UCBd")
         s.update(acq=acq if acq.startswith("MES") else "non-MES")   # coarse on purpose: one report per failure class
+    if case.get("seed_kind", "int") != "int":
+        s.update(seed_kind=case["seed_kind"])
     s.update(extra)
     return s
 
 
 # ---------------------------------------------------------------------------------------------- children
 def spec_of(case, seed, perturb):
-    s = {k: case[k] for k in ("search", "space", "kwargs", "nobj", "fail_mod", "fail_region", "mode", "evals", "batches", "interfere", "threads", "repeat") if k in case}
+    s = {k: case[k] for k in ("search", "space", "kwargs", "nobj", "fail_mod", "fail_region", "mode", "evals", "batches", "interfere", "threads", "repeat", "seed_kind", "calls", "warm", "warm_how", "const_obj") if k in case}
     s.update(seed=seed, perturb=perturb)
     return s
 
@@ -330,7 +347,7 @@ def base_case(rng, **k):
     return c
 
 
-def quick_catalogue(rng):
+def quick_catalogue(rng, full=False):
     B = [2, 2, 3, 3, 2]
     return [
         base_case(rng, kwargs=K(acq_func="UCBd")),
@@ -346,7 +363,7 @@ def quick_catalogue(rng):
         base_case(rng, space="forbid", fail_mod=3, kwargs=K(surrogate_model="RF", acq_func="gp_hedge", initial_point_generator="lhs")),
         base_case(rng, search="Random", space="flat_mixed", mode="ask", batches=[3, 2, 4]),
         base_case(rng, space="flat_many", kwargs=K(acq_func="EId", initial_point_generator="halton")),
-    ] + stress_catalogue(rng)
+    ] + stress_catalogue(rng) + sweep_catalogue(rng, full)
 
 
 def stress_catalogue(rng):
@@ -363,6 +380,51 @@ def stress_catalogue(rng):
         base_case(rng, space="discrete", evals=12, kwargs=K(acq_func="UCBd")),
         base_case(rng, space="discrete", mode="ask", batches=[2, 3, 2, 3, 2], kwargs=K(surrogate_model="DUMMY", acq_func="UCB", multi_point_strategy="cl_max")),
     ] + shared_catalogue(rng)
+
+
+def sweep_catalogue(rng, full=False):
+    """Blind-spot sweep: state between several search() calls on one object, a search continued from a checkpoint (fit_surrogate from a
+    DataFrame / a csv file), the seed given as a numpy integer / a RandomState, the seeds 0 and 2**32-1, an exhausted space, a constant
+    objective, every evaluation failing, surrogates / acquisition optimizers that are not the default."""
+    def edge(c, seed):
+        c.update(seed=seed, seed2=(seed + 12345) % 2**32)
+        return c
+
+    cat = [
+        base_case(rng, space="flat_mixed", kwargs=K(acq_func="UCBd"), calls=[3, 4, 3, 2]),
+        base_case(rng, search="RegEvo", space="cond", kwargs=dict(population_size=5, sample_size=2), calls=[4, 4, 4, 3]),
+        base_case(rng, space="cond", evals=7, kwargs=K(acq_func="UCBd"), warm=10, warm_how="fit_surrogate"),
+        base_case(rng, space="flat_mixed", evals=7, kwargs=K(surrogate_model="RF", acq_func="EI"), warm=10, warm_how="csv"),
+        base_case(rng, space="flat_mixed", evals=8, kwargs=K(acq_func="UCBd"), seed_kind="np.int64"),
+        base_case(rng, search="Random", space="cond", evals=8, seed_kind="np.int32"),
+        base_case(rng, space="cond", evals=8, kwargs=K(acq_func="UCB"), seed_kind="RandomState"),
+        edge(base_case(rng, space="flat_mixed", evals=8, kwargs=K(acq_func="UCBd")), 0),
+        edge(base_case(rng, search="RegEvo", space="flat_many", evals=12, kwargs=dict(population_size=5, sample_size=2)), 2**32 - 1),
+        base_case(rng, space="tiny", evals=15, kwargs=K(acq_func="UCBd")),
+        base_case(rng, space="flat_real", evals=9, const_obj=True, kwargs=K(surrogate_model="RF", acq_func="EI")),
+        base_case(rng, space="flat_real", evals=8, fail_region=100.0, kwargs=K(acq_func="UCBd", filter_failures="mean")),
+    ]
+    return cat if full else [cat[i] for i in (0, 1, 2, 4, 6, 7, 8, 9, 10)]
+
+
+def variant_case(rng):
+    """Surrogates and acquisition optimizers that are not the default (thorough tier)."""
+    sm = rng.choice(["TB", "RS", "GBRT", "HGBRT", "ET", "ET", "GP"])
+    kw = K(surrogate_model=sm, acq_func=rng.choice(["UCB", "EI", "PI"]))
+    if sm in ("ET", "GP"):
+        kw["acq_optimizer"] = rng.choice(["sampling", "lbfgs", "ga"] if sm == "ET" else ["sampling", "lbfgs"])
+    c = dict(space="flat_real" if sm == "GP" or kw.get("acq_optimizer") in ("lbfgs", "ga") else rng.choice(["flat_mixed", "cond", "flat_many"]), evals=rng.randrange(7, 10), kwargs=kw)
+    r = rng.random()
+    if r < 0.25:
+        c.pop("evals")
+        c["calls"] = [rng.randrange(2, 5) for _ in range(3)]
+    elif r < 0.4:
+        c.update(warm=10, warm_how=rng.choice(["fit_surrogate", "csv"]))
+    elif r < 0.5:
+        c.update(const_obj=True)
+    if rng.random() < 0.2:
+        c.update(seed_kind=rng.choice(["np.int64", "np.uint32", "RandomState"]))
+    return base_case(rng, **c)
 
 
 def shared_catalogue(rng):
@@ -472,7 +534,7 @@ def targeted_classes(rng):
         for n, (tags, c) in enumerate(pr):
             bad = [a["rng_sites"][i] for i in m.call(F_BAD, model_args(c)) if a["rng_sites"][i]["num"][1] not in known]
             ebad = []
-            if not m.call(F_ENV_OK, [a.get("world", [True]), cfg_of(c), [s["num"] for s in a["env_sites"]]]):
+            if not m.call(F_ENV_OK, [a.get("world", [True, False]), cfg_of(c), [s["num"] for s in a["env_sites"]]]):
                 ebad = [s for s in a["env_sites"] if s["flow"] == "Flows" and s["num"][1] not in old_env]
             if bad or ebad:
                 text = " ".join("%s %s %s %s" % (s["file"], s["func"], s["callee"], s["guard"]) for s in bad + ebad).lower()
@@ -499,11 +561,13 @@ def gen_pairs(rng, tier):
         for _ in range(10):
             yield random_case(rng)
     else:
-        yield from quick_catalogue(rng)
+        yield from quick_catalogue(rng, full=True)
         for sm in ("GP", "GP", "GP"):
             yield random_case(rng, surrogates=(sm,), search="CBO")
-        for _ in range(65):
+        for _ in range(55):
             yield random_case(rng)
+        for _ in range(14):
+            yield variant_case(rng)
 
 
 def search_around(rng, tier, case):
@@ -528,6 +592,10 @@ def shrink_pair(case):
         yield dict(case, fail_mod=0)
     if case.get("fail_region"):
         yield dict(case, fail_region=0.0)
+    if case.get("calls") and len(case["calls"]) > 1:
+        yield dict(case, calls=case["calls"][:-1])
+    if case.get("const_obj"):
+        yield dict(case, const_obj=False)
     if case.get("repeat", 1) > 1:
         yield dict(case, repeat=case["repeat"] - 1)
     if case["space"] != "flat_real":
@@ -662,7 +730,7 @@ def gen_trace_cases(rng, tier):
 def gen_trace(rng, tier):
     # the interfering search of the shared-problem pairs belongs to another class (its draws would be attributed to the observed class): not traced
     for c in gen_trace_cases(rng, tier):
-        yield {k: v for k, v in c.items() if k != "interfere"}
+        yield {k: v for k, v in c.items() if k not in ("interfere", "warm", "warm_how")}   # (the checkpoint is produced by a RandomSearch, too)
 
 
 def streams(tier):
